@@ -209,7 +209,12 @@ pub fn campaign(ctx: &Ctx, runs_total: u64) {
         for e in rd.flatten() {
             let name = e.file_name().to_string_lossy().to_string();
             let bytes = std::fs::read(e.path()).unwrap_or_default();
-            if name.starts_with("timeout-") || name.starts_with("oom-") || name.starts_with("slow-unit-") {
+            if name.starts_with("slow-unit-") {
+                // informational: libFuzzer reports units slower than 10 s (ASan + long histories)
+                ctx.add_engine(&format!("libfuzzer:{}:slow-units", target), 1);
+                continue;
+            }
+            if name.starts_with("timeout-") || name.starts_with("oom-") {
                 ctx.report("fuzz", serde_json::json!({}), vec![Violation::new(&ctx.prop, "harness", "harness-panic", format!("libFuzzer {} artifact (inconclusive)", name.split('-').next().unwrap_or("")), String::new())]);
                 continue;
             }
